@@ -355,6 +355,16 @@ class SimpleJSONRPCDispatcher(SimpleXMLRPCDispatcher, object):
                 else:
                     response = self._dispatch(method, params, config)
             except Exception as ex:
+                if is_notification:
+                    # A notification is never answered, even when it fails
+                    _logger.error(
+                        "Error calling notification method %s: %s:%s",
+                        method,
+                        type(ex).__name__,
+                        ex,
+                    )
+                    return None
+
                 # Return a fault
                 fault = Fault(
                     -32603,
